@@ -430,7 +430,16 @@ func (gp *GenginePool) SetExecModel(execModel int) error {
 
 //get the execute model the user set
 func (gp *GenginePool) GetExecModel() int {
+	gp.updateLock.Lock()
+	defer gp.updateLock.Unlock()
 	return gp.execModel
+}
+
+//whether the rules have been cleared; clear is written under updateLock, so it is read under it too
+func (gp *GenginePool) isCleared() bool {
+	gp.updateLock.Lock()
+	defer gp.updateLock.Unlock()
+	return gp.clear
 }
 
 //check the rule whether exist
@@ -549,7 +558,7 @@ func (gp *GenginePool) ExecuteRulesWithSpecifiedEM(reqName string, req interface
 
 	returnResultMap := make(map[string]interface{})
 	//rules has bean cleared
-	if gp.clear {
+	if gp.isCleared() {
 		//no data to execute rule
 		return nil, returnResultMap
 	}
@@ -564,26 +573,27 @@ func (gp *GenginePool) ExecuteRulesWithSpecifiedEM(reqName string, req interface
 		gp.putGengineLocked(gw)
 	}()
 
-	if gp.execModel == SortModel { //sort
+	em := gp.GetExecModel()
+	if em == SortModel { //sort
 		// when some rule execute error ,it will continue to execute last
 		e := gw.gengine.Execute(gw.rulebuilder, true)
 		returnResultMap, _ = gw.gengine.GetRulesResultMap()
 		return e, returnResultMap
 	}
 
-	if gp.execModel == ConcurrentModel { //concurrent
+	if em == ConcurrentModel { //concurrent
 		e := gw.gengine.ExecuteConcurrent(gw.rulebuilder)
 		returnResultMap, _ = gw.gengine.GetRulesResultMap()
 		return e, returnResultMap
 	}
 
-	if gp.execModel == MixModel { //mix
+	if em == MixModel { //mix
 		e := gw.gengine.ExecuteMixModel(gw.rulebuilder)
 		returnResultMap, _ = gw.gengine.GetRulesResultMap()
 		return e, returnResultMap
 	}
 
-	if gp.execModel == InverseMixModel { // inverse mix model
+	if em == InverseMixModel { // inverse mix model
 		e := gw.gengine.ExecuteInverseMixModel(gw.rulebuilder)
 		returnResultMap, _ = gw.gengine.GetRulesResultMap()
 		return e, returnResultMap
@@ -602,7 +612,7 @@ func (gp *GenginePool) ExecuteRulesWithMultiInputWithSpecifiedEM(data map[string
 
 	returnResultMap := make(map[string]interface{})
 	//rules has bean cleared
-	if gp.clear {
+	if gp.isCleared() {
 		//no data to execute rule
 		return nil, returnResultMap
 	}
@@ -617,26 +627,27 @@ func (gp *GenginePool) ExecuteRulesWithMultiInputWithSpecifiedEM(data map[string
 		gp.putGengineLocked(gw)
 	}()
 
-	if gp.execModel == SortModel { //sort
+	em := gp.GetExecModel()
+	if em == SortModel { //sort
 		// when some rule execute error ,it will continue to execute last
 		e := gw.gengine.Execute(gw.rulebuilder, true)
 		returnResultMap, _ = gw.gengine.GetRulesResultMap()
 		return e, returnResultMap
 	}
 
-	if gp.execModel == ConcurrentModel { //concurrent
+	if em == ConcurrentModel { //concurrent
 		e := gw.gengine.ExecuteConcurrent(gw.rulebuilder)
 		returnResultMap, _ = gw.gengine.GetRulesResultMap()
 		return e, returnResultMap
 	}
 
-	if gp.execModel == MixModel { //mix
+	if em == MixModel { //mix
 		e := gw.gengine.ExecuteMixModel(gw.rulebuilder)
 		returnResultMap, _ = gw.gengine.GetRulesResultMap()
 		return e, returnResultMap
 	}
 
-	if gp.execModel == InverseMixModel { // inverse mix model
+	if em == InverseMixModel { // inverse mix model
 		e := gw.gengine.ExecuteInverseMixModel(gw.rulebuilder)
 		returnResultMap, _ = gw.gengine.GetRulesResultMap()
 		return e, returnResultMap
@@ -655,7 +666,7 @@ func (gp *GenginePool) ExecuteSelectedWithSpecifiedEM(data map[string]interface{
 
 	returnResultMap := make(map[string]interface{})
 	//rules has bean cleared
-	if gp.clear {
+	if gp.isCleared() {
 		//no data to execute rule
 		return nil, returnResultMap
 	}
@@ -670,25 +681,26 @@ func (gp *GenginePool) ExecuteSelectedWithSpecifiedEM(data map[string]interface{
 		gp.putGengineLocked(gw)
 	}()
 
-	if gp.execModel == SortModel {
+	em := gp.GetExecModel()
+	if em == SortModel {
 		e = gw.gengine.ExecuteSelectedRules(gw.rulebuilder, names)
 		returnResultMap, _ = gw.gengine.GetRulesResultMap()
 		return e, returnResultMap
 	}
 
-	if gp.execModel == ConcurrentModel {
+	if em == ConcurrentModel {
 		e = gw.gengine.ExecuteSelectedRulesConcurrent(gw.rulebuilder, names)
 		returnResultMap, _ = gw.gengine.GetRulesResultMap()
 		return e, returnResultMap
 	}
 
-	if gp.execModel == MixModel {
+	if em == MixModel {
 		e = gw.gengine.ExecuteSelectedRulesMixModel(gw.rulebuilder, names)
 		returnResultMap, _ = gw.gengine.GetRulesResultMap()
 		return e, returnResultMap
 	}
 
-	if gp.execModel == InverseMixModel {
+	if em == InverseMixModel {
 		e = gw.gengine.ExecuteSelectedRulesInverseMixModel(gw.rulebuilder, names)
 		returnResultMap, _ = gw.gengine.GetRulesResultMap()
 		return e, returnResultMap
@@ -701,7 +713,7 @@ func (gp *GenginePool) ExecuteSelectedWithSpecifiedEM(data map[string]interface{
 func (gp *GenginePool) Execute(data map[string]interface{}, b bool) (error, map[string]interface{}) {
 	returnResultMap := make(map[string]interface{})
 	//rules has bean cleared
-	if gp.clear {
+	if gp.isCleared() {
 		//no data to execute rule
 		return nil, returnResultMap
 	}
@@ -726,7 +738,7 @@ func (gp *GenginePool) ExecuteWithStopTagDirect(data map[string]interface{}, b b
 
 	returnResultMap := make(map[string]interface{})
 	//rules has bean cleared
-	if gp.clear {
+	if gp.isCleared() {
 		//no data to execute rule
 		return nil, returnResultMap
 	}
@@ -750,7 +762,7 @@ func (gp *GenginePool) ExecuteWithStopTagDirect(data map[string]interface{}, b b
 func (gp *GenginePool) ExecuteConcurrent(data map[string]interface{}) (error, map[string]interface{}) {
 	returnResultMap := make(map[string]interface{})
 	//rules has bean cleared
-	if gp.clear {
+	if gp.isCleared() {
 		//no data to execute rule
 		return nil, returnResultMap
 	}
@@ -774,7 +786,7 @@ func (gp *GenginePool) ExecuteConcurrent(data map[string]interface{}) (error, ma
 func (gp *GenginePool) ExecuteMixModel(data map[string]interface{}) (error, map[string]interface{}) {
 	returnResultMap := make(map[string]interface{})
 	//rules has bean cleared
-	if gp.clear {
+	if gp.isCleared() {
 		//no data to execute rule
 		return nil, returnResultMap
 	}
@@ -798,7 +810,7 @@ func (gp *GenginePool) ExecuteMixModel(data map[string]interface{}) (error, map[
 func (gp *GenginePool) ExecuteMixModelWithStopTagDirect(data map[string]interface{}, sTag *Stag) (error, map[string]interface{}) {
 	returnResultMap := make(map[string]interface{})
 	//rules has bean cleared
-	if gp.clear {
+	if gp.isCleared() {
 		//no data to execute rule
 		return nil, returnResultMap
 	}
@@ -823,7 +835,7 @@ func (gp *GenginePool) ExecuteMixModelWithStopTagDirect(data map[string]interfac
 func (gp *GenginePool) ExecuteSelectedRules(data map[string]interface{}, names []string) (error, map[string]interface{}) {
 	returnResultMap := make(map[string]interface{})
 	//rules has bean cleared
-	if gp.clear {
+	if gp.isCleared() {
 		//no data to execute rule
 		return nil, returnResultMap
 	}
@@ -847,7 +859,7 @@ func (gp *GenginePool) ExecuteSelectedRules(data map[string]interface{}, names [
 func (gp *GenginePool) ExecuteSelectedRulesWithControl(data map[string]interface{}, b bool, names []string) (error, map[string]interface{}) {
 	returnResultMap := make(map[string]interface{})
 	//rules has bean cleared
-	if gp.clear {
+	if gp.isCleared() {
 		//no data to execute rule
 		return nil, returnResultMap
 	}
@@ -871,7 +883,7 @@ func (gp *GenginePool) ExecuteSelectedRulesWithControl(data map[string]interface
 func (gp *GenginePool) ExecuteSelectedRulesWithControlAsGivenSortedName(data map[string]interface{}, b bool, sortedNames []string) (error, map[string]interface{}) {
 	returnResultMap := make(map[string]interface{})
 	//rules has bean cleared
-	if gp.clear {
+	if gp.isCleared() {
 		//no data to execute rule
 		return nil, returnResultMap
 	}
@@ -895,7 +907,7 @@ func (gp *GenginePool) ExecuteSelectedRulesWithControlAsGivenSortedName(data map
 func (gp *GenginePool) ExecuteSelectedRulesWithControlAndStopTag(data map[string]interface{}, b bool, sTag *Stag, names []string) (error, map[string]interface{}) {
 	returnResultMap := make(map[string]interface{})
 	//rules has bean cleared
-	if gp.clear {
+	if gp.isCleared() {
 		//no data to execute rule
 		return nil, returnResultMap
 	}
@@ -919,7 +931,7 @@ func (gp *GenginePool) ExecuteSelectedRulesWithControlAndStopTag(data map[string
 func (gp *GenginePool) ExecuteSelectedRulesWithControlAndStopTagAsGivenSortedName(data map[string]interface{}, b bool, sTag *Stag, sortedNames []string) (error, map[string]interface{}) {
 	returnResultMap := make(map[string]interface{})
 	//rules has bean cleared
-	if gp.clear {
+	if gp.isCleared() {
 		//no data to execute rule
 		return nil, returnResultMap
 	}
@@ -944,7 +956,7 @@ func (gp *GenginePool) ExecuteSelectedRulesConcurrent(data map[string]interface{
 
 	returnResultMap := make(map[string]interface{})
 	//rules has bean cleared
-	if gp.clear {
+	if gp.isCleared() {
 		//no data to execute rule
 		return nil, returnResultMap
 	}
@@ -969,7 +981,7 @@ func (gp *GenginePool) ExecuteSelectedRulesMixModel(data map[string]interface{},
 
 	returnResultMap := make(map[string]interface{})
 	//rules has bean cleared
-	if gp.clear {
+	if gp.isCleared() {
 		//no data to execute rule
 		return nil, returnResultMap
 	}
@@ -994,7 +1006,7 @@ func (gp *GenginePool) ExecuteSelectedRulesMixModel(data map[string]interface{},
 func (gp *GenginePool) ExecuteInverseMixModel(data map[string]interface{}) (error, map[string]interface{}) {
 	returnResultMap := make(map[string]interface{})
 	//rules has bean cleared
-	if gp.clear {
+	if gp.isCleared() {
 		//no data to execute rule
 		return nil, returnResultMap
 	}
@@ -1020,7 +1032,7 @@ func (gp *GenginePool) ExecuteSelectedRulesInverseMixModel(data map[string]inter
 
 	returnResultMap := make(map[string]interface{})
 	//rules has bean cleared
-	if gp.clear {
+	if gp.isCleared() {
 		//no data to execute rule
 		return nil, returnResultMap
 	}
@@ -1045,7 +1057,7 @@ func (gp *GenginePool) ExecuteNSortMConcurrent(nSort, mConcurrent int, b bool, d
 
 	returnResultMap := make(map[string]interface{})
 	//rules has bean cleared
-	if gp.clear {
+	if gp.isCleared() {
 		//no data to execute rule
 		return nil, returnResultMap
 	}
@@ -1069,7 +1081,7 @@ func (gp *GenginePool) ExecuteNSortMConcurrent(nSort, mConcurrent int, b bool, d
 func (gp *GenginePool) ExecuteNConcurrentMSort(nSort, mConcurrent int, b bool, data map[string]interface{}) (error, map[string]interface{}) {
 	returnResultMap := make(map[string]interface{})
 	//rules has bean cleared
-	if gp.clear {
+	if gp.isCleared() {
 		//no data to execute rule
 		return nil, returnResultMap
 	}
@@ -1093,7 +1105,7 @@ func (gp *GenginePool) ExecuteNConcurrentMSort(nSort, mConcurrent int, b bool, d
 func (gp *GenginePool) ExecuteNConcurrentMConcurrent(nSort, mConcurrent int, b bool, data map[string]interface{}) (error, map[string]interface{}) {
 	returnResultMap := make(map[string]interface{})
 	//rules has bean cleared
-	if gp.clear {
+	if gp.isCleared() {
 		//no data to execute rule
 		return nil, returnResultMap
 	}
@@ -1118,7 +1130,7 @@ func (gp *GenginePool) ExecuteNConcurrentMConcurrent(nSort, mConcurrent int, b b
 func (gp *GenginePool) ExecuteSelectedNSortMConcurrent(nSort, mConcurrent int, b bool, names []string, data map[string]interface{}) (error, map[string]interface{}) {
 	returnResultMap := make(map[string]interface{})
 	//rules has bean cleared
-	if gp.clear {
+	if gp.isCleared() {
 		//no data to execute rule
 		return nil, returnResultMap
 	}
@@ -1143,7 +1155,7 @@ func (gp *GenginePool) ExecuteSelectedNConcurrentMSort(nSort, mConcurrent int, b
 
 	returnResultMap := make(map[string]interface{})
 	//rules has bean cleared
-	if gp.clear {
+	if gp.isCleared() {
 		//no data to execute rule
 		return nil, returnResultMap
 	}
@@ -1168,7 +1180,7 @@ func (gp *GenginePool) ExecuteSelectedNConcurrentMConcurrent(nSort, mConcurrent 
 
 	returnResultMap := make(map[string]interface{})
 	//rules has bean cleared
-	if gp.clear {
+	if gp.isCleared() {
 		//no data to execute rule
 		return nil, returnResultMap
 	}
@@ -1193,7 +1205,7 @@ func (gp *GenginePool) ExecuteDAGModel(dag [][]string, data map[string]interface
 
 	returnResultMap := make(map[string]interface{})
 	//rules has bean cleared
-	if gp.clear {
+	if gp.isCleared() {
 		//no data to execute rule
 		return nil, returnResultMap
 	}
